@@ -107,7 +107,7 @@ def last_one_finalises(ctx):
     ctx.ob(m, 'notify_job_complete returns the decremented count of that transfer', ok, f'{[norm(x.value) for x in rets]}')
 
 
-@rule('C19.e', ['C19'], floor=2)
+@rule('C19.e', ['C19', 'C03'], floor=2)
 def submitter_failures_in_order(ctx):
     """GetObjectSubmitter._do_run: a failure while submitting a download is recorded
     (notify_exception) before the download is marked done (notify_done)."""
